@@ -390,7 +390,8 @@ func execC12(r *kernel.Run, s C12Spec) {
 		}
 		r.Eval(1)
 		r.Fault(kind)
-		v := verifyWire(b, rw.sess)
+		v := verifyWireTwice(b, rw.sess)
+		checkReverify(r, "C12", id, v)
 		if v.Panic != "" {
 			r.Probe("receiver-panic(judged by C08)")
 		}
